@@ -37,7 +37,8 @@ func refusedTx(r *hx.Rand, u *Universe, g *genState, kind int, chain string, exe
 	case 0:
 		return &TxSpec{Garbage: r.Bytes(r.Intn(60))}, "garbage"
 	case 1:
-		b := []string{"", "AAAA", "!!!!", "____", strings.Repeat("A", 87), strings.Repeat("A", 200)}
+		b := []string{"", "AAAA", "!!!!", "____", strings.Repeat("A", 87), strings.Repeat("A", 200),
+			lineBrokenGarbage(r, nil), lineBrokenGarbage(r, nil), lineBrokenGarbage(r, nil)}
 		return &TxSpec{Garbage: []byte(b[r.Intn(len(b))])}, "garbage-base64"
 	case 2:
 		t := g.validTx()
@@ -121,6 +122,20 @@ func monitorC10(cfg CheckConfig, res *hx.Result, traces []*Trace) error {
 		}
 		for k := 0; k < perHistory; k++ {
 			at := pos[r.Intn(len(pos))]
+			// every third injection goes to the mempool of a node that has just been started again from the state
+			// saved by a commit (in place of the block execution, which happens inside a block)
+			restarted := false
+			if k%3 == 2 {
+				after := []int{}
+				for b, op := range t.H.Ops {
+					if op.Kind == "commit" {
+						after = append(after, b+1)
+					}
+				}
+				if len(after) > 0 {
+					at, restarted = after[r.Intn(len(after))], true
+				}
+			}
 			executed := []*TxSpec{}
 			for _, op := range t.H.Ops[:at] {
 				if op.Kind == "deliver" && op.Tx.Garbage == nil && op.Tx.Chain == chain {
@@ -157,6 +172,9 @@ func monitorC10(cfg CheckConfig, res *hx.Result, traces []*Trace) error {
 			outAddr := Dec(u.Addrs[out].Bytes())
 			g := &genState{u: u, r: r, chain: chain, nonce: 1 << 32}
 			kind := r.Intn(11)
+			if restarted {
+				kind = r.Intn(8)
+			}
 			var x *TxSpec
 			class := ""
 			if kind < 8 {
@@ -190,13 +208,24 @@ func monitorC10(cfg CheckConfig, res *hx.Result, traces []*Trace) error {
 			}
 			xop := &Op{Kind: "deliver", Tx: x}
 			ops := append(append(append([]*Op{}, t.H.Ops[:at]...), &Op{Kind: "check", Tx: x}, xop), t.H.Ops[at:]...)
+			if restarted {
+				ops = append(append(append([]*Op{}, t.H.Ops[:at]...), &Op{Kind: "restart"}, &Op{Kind: "check", Tx: x}), t.H.Ops[at:]...)
+				res.Count("c10:inject-after-restart")
+			}
 			tw := RunImpl(u, &History{Ops: ops})
 			res.Evaluations++
-			res.Distinct(fmt.Sprintf("%d|%d|%s", t.H.Seed, at, xop.Line(u)))
+			res.Distinct(fmt.Sprintf("%d|%d|%v|%s", t.H.Seed, at, restarted, xop.Line(u)))
 			fail := ""
 			// the injected check and deliver are refused, without events
 			co, do := tw.Impl[at].Obs, tw.Impl[at+1].Obs
-			if tw.Impl[at].Panic != "" || tw.Impl[at+1].Panic != "" {
+			if restarted {
+				co, do = tw.Impl[at+1].Obs, "code=1 ev=[]"
+				if tw.Impl[at].Obs != "ok" {
+					fail = "the node does not start again from the state it saved: " + tw.Impl[at].Obs
+				}
+			}
+			if fail != "" {
+			} else if tw.Impl[at].Panic != "" || tw.Impl[at+1].Panic != "" {
 				fail = "panic on a refused transaction: " + tw.Impl[at].Panic + tw.Impl[at+1].Panic
 			} else if co == "code=0" && !malformed {
 				// (the mempool check looks at the envelope and the sender only; a keyper's malformed payload is
@@ -224,7 +253,7 @@ func monitorC10(cfg CheckConfig, res *hx.Result, traces []*Trace) error {
 				}
 			}
 			// the injected transaction, replayed at a later point of the history, is refused
-			if fail == "" && x.Garbage == nil {
+			if fail == "" && x.Garbage == nil && !restarted {
 				later := []int{}
 				for i := at + 2; i < len(ops); i++ {
 					if ops[i].Kind == "begin" || ops[i].Kind == "deliver" {
